@@ -111,7 +111,7 @@ class ClientMachine(RuleBasedStateMachine):
         return 200, headers, b"<OFX>fixture reply</OFX>"
 
     # -- rules ----------------------------------------------------------------
-    @initialize(specs=st.lists(st.tuples(st.integers(0, 2), st.booleans(), st.sampled_from(["InetClntApp/3.0", "MyAgent/1.0 (x)", "curl/8"]), st.sampled_from([102, 103, 203, 220])), min_size=1, max_size=3))
+    @initialize(specs=st.lists(st.tuples(st.integers(0, 2), st.booleans(), st.sampled_from(["InetClntApp/3.0", "MyAgent/1.0 (x)", "curl/8", ""]), st.sampled_from([102, 103, 203, 220])), min_size=1, max_size=3))
     def make_clients(self, specs):
         from ofxtools.Client import OFXClient
 
